@@ -234,6 +234,18 @@ pub fn c09_event(tier: &str) -> Value {
             }
         }
     }
+    // ties: bit-equal amplitudes on three adjacent pads (saturation, pulser patterns) and on neighbouring wires, with coincident
+    // wire data in the same pad column -- reconstruction must return normally (no NaN may reach an unwrap)
+    for (pads, wires) in [([900.0, 900.0, 900.0], [40.0, 40.0]), ([500.0, 500.0, 200.0], [30.0, 30.0]), ([300.0, 800.0, 800.0], [25.0, 60.0])] {
+        let mut e = crate::evt::Event::with_wires(40..56);
+        e.add_wire_avalanche(44, 20, wires[0]);
+        e.add_wire_avalanche(45, 20, wires[1]);
+        e.add_pad_cluster(4, 200, 20, pads);
+        e.add_pad_cluster(4, 300, 20, pads);
+        let banks: Banks = e.banks();
+        cases += 1;
+        match run_event(banks.clone(), true) { Err(p) => return fail(format!("panic: {p} (equal amplitudes {pads:?} on three adjacent pads)"), cases, &banks), Ok(_) => {} }
+    }
     // sent and over-threshold masks differ in both directions (forced channels / suppression quirks)
     for thr in [0u128, 1 << 3, (1 << 3) | (1 << 4) | (1 << 40), (1u128 << 79) - 1] {
         let payload = pwb_payload_thr(pb, 0, 150, &[(4, vec![1800; 150]), (5, vec![1725; 150])], Some(thr));
